@@ -831,6 +831,10 @@ def path_feasible(path, val, observe=None):
                 return (l == r) if e["op"] == "Eq" else (l != r)
             if l is not None and r is not None and (l[0] == "other") != (r[0] == "other"):
                 return e["op"] == "Ne"
+        if e.get("k") == "bin" and e.get("op") in ("Lt", "Le", "Gt", "Ge"):
+            l, r = val(e["l"]), val(e["r"])
+            if l is not None and r is not None and l[0] == "int" and r[0] == "int":
+                return {"Lt": l[1] < r[1], "Le": l[1] <= r[1], "Gt": l[1] > r[1], "Ge": l[1] >= r[1]}[e["op"]]
         v = val(e)
         if v is not None and v[0] == "bool":
             return v[1]
